@@ -490,14 +490,13 @@ pub extern "C" fn c17_access_threads() {
     let shared = Arc::new(ArcSwap::new(mk(0)));
     on_thread(2, || drop(ArcSwap::load(&shared)));
     let depth = nondet(1);
-    assume(depth < 3);
+    assume(depth < 2);
     let m1 = Map::new(&*shared, |o: &Outer| &o.inner);
     let m2 = Map::new(&m1, |i: &Inner| &i.v);
-    let dynz: Box<dyn DynAccess<u64> + Sync> = Box::new(Map::new(shared.clone(), |o: &Outer| &o.z));
-    let (g1, g2, g3) = on_thread(1, || match depth {
-        0 => (Some(Access::load(&m1)), None, None),
-        1 => (None, Some(Access::load(&m2)), None),
-        _ => (None, None, Some(DynAccess::load(&*dynz))),
+    // (a DynGuard is neither Send nor Sync, it cannot leave its thread: only the static forms here)
+    let (g1, g2) = on_thread(1, || match depth {
+        0 => (Some(Access::load(&m1)), None),
+        _ => (None, Some(Access::load(&m2))),
     });
     thread_exit(1);
     on_thread(2, || shared.store(mk(1)));
@@ -507,11 +506,8 @@ pub extern "C" fn c17_access_threads() {
     if let Some(g) = &g2 {
         vassert(**g == 10, 2);
     }
-    if let Some(g) = &g3 {
-        vassert(**g == 30, 3);
-    }
     vassert(*Access::load(&m2) == 11, 4);
-    drop((g1, g2, g3));
+    drop((g1, g2));
     vassert(slots_all_empty(), 5);
     cover(1);
 }
